@@ -16,7 +16,9 @@ import (
 	"math/rand"
 	"os"
 	"path/filepath"
+	"runtime"
 	"strings"
+	"time"
 
 	"github.com/lidofinance/dc4bc/fsm/types/requests"
 	"github.com/lidofinance/dc4bc/pkg/wc_rotation"
@@ -302,7 +304,32 @@ func runSszDiff(outDir string, seed int64, tier string) {
 				}
 				toks = append(toks, hs(t.MessageID), hs(t.File), pl, fmt.Sprint(t.RangeStart), fmt.Sprint(t.RangeEnd))
 			}
-			ob := safeTasks(ts)
+			// a range that is not refused where it leaves the list would be expanded until memory runs out (which ends the
+			// process as surely as a panic). The built-in list has 18632 entries, so a legitimate expansion stays far below
+			// 8 GB of live heap and far below ten minutes; beyond either the run stops and keeps what was observed so far.
+			obc := make(chan string, 1)
+			go func() { obc <- safeTasks(ts) }()
+			var ob string
+			started := time.Now()
+			for waiting := true; waiting; {
+				select {
+				case ob = <-obc:
+					waiting = false
+				case <-time.After(200 * time.Millisecond):
+					var ms runtime.MemStats
+					runtime.ReadMemStats(&ms)
+					if ms.HeapAlloc > 8<<30 || time.Since(started) > 10*time.Minute {
+						st.Monitors = append(st.Monitors, fmt.Sprintf("C18 never_panics: TasksToMessages does not return on the range [%d,%d) (heap %d MB after %.0f s): the expansion is not refused where it leaves the list", a, b, ms.HeapAlloc>>20, time.Since(started).Seconds()))
+						ops.Flush()
+						obs.Flush()
+						fo.Close()
+						fb.Close()
+						writeJSON(filepath.Join(outDir, "stats.json"), st)
+						fmt.Printf("sszdiff: ops=%d roots=%d baked=%d tasks=%d monitors=%d (stopped at a non-returning expansion)\n", st.Ops, st.Roots, st.Baked, st.Tasks, len(st.Monitors))
+						os.Exit(0)
+					}
+				}
+			}
 			if strings.HasPrefix(ob, "panic") {
 				st.Monitors = append(st.Monitors, fmt.Sprintf("C18 never_panics: TasksToMessages panicked on the range [%d,%d)", a, b))
 			}
